@@ -475,3 +475,34 @@ Fixpoint run (s : st) (ops : list op) : st * list out :=
   end.
 
 Definition final (s : st) (ops : list op) : st := fst (run s ops).
+
+(* ------------------------------------------------------------------ *)
+(** * vocabulary of the theorems (definitions only) *)
+
+Definition keysN {A} (l : list (N * A)) : list N := map fst l.
+Definition isopen (r : hrec) : bool := htx r && negb (hclosed r).
+Definition open_tx (l : list (N * hrec)) : N := len (filter (fun p => isopen (snd p)) l).
+
+Definition fut_ok (s : st) : Prop :=
+  forall f fr, aget f (fs s) = Some fr ->
+    exists r, aget (fh fr) (hs s) = Some r /\ hasync r = true /\ htx r = negb (is_recv_kind (fk fr)).
+Definition rx_one (s : st) : Prop := forall h r, aget h (hs s) = Some r -> htx r = false -> h = 1.
+Definition rx_live (s : st) : Prop :=
+  rdrop s = false <-> exists r, aget 1 (hs s) = Some r /\ htx r = false /\ hclosed r = false.
+
+Definition GS (s : st) : Prop :=
+  NoDup (keysN (hs s)) /\ NoDup (keysN (fs s)) /\ fut_ok s /\ rx_one s
+  /\ scount s = open_tx (hs s) /\ rx_live s.
+
+(** FIFO invariant; after the receiver went away nothing is buffered (its close drains) *)
+Definition G2 (s : st) : Prop :=
+  acc s = rcv s ++ q s ++ qdrp s
+  /\ (qdrp s <> [] -> rdrop s = true \/ hs s = [])
+  /\ (rdrop s = true -> q s = []).
+
+Definition cnt (v : N) (l : list N) : nat := count_occ N.eq_dec l v.
+Definition held (s : st) : list N := rcv s ++ q s ++ fitems (fs s) ++ back s ++ drp s.
+Definition G3 (s : st) : Prop :=
+  (forall v, cnt v (used s) = cnt v (held s)) /\ (forall v, (cnt v (used s) <= 1)%nat).
+
+Definition Inv (s : st) : Prop := GS s /\ G2 s /\ G3 s.
